@@ -1,4 +1,638 @@
-(* C19 - lemmas (stage 1 placeholder, replaced below) *)
-From Coq Require Import List ZArith QArith.
+(* C19 - lemmas about the estimator models (Model.v) against the declarative reading (Spec.v). *)
+From Coq Require Import List ZArith QArith Qabs Bool Lia Setoid Morphisms.
 From PV Require Import C19.Model C19.Spec.
-Lemma placeholder_true : True. Proof. exact I. Qed.
+Import ListNotations.
+Local Open Scope Q_scope.
+
+(* ------------------------------------------------------------------------------------------ *)
+(* sums over Q up to ==                                                                         *)
+(* ------------------------------------------------------------------------------------------ *)
+Lemma Qsum_cons : forall x l, Qsum (x :: l) == x + Qsum l.
+Proof. intros. unfold Qsum; cbn [fold_right]. apply Qred_correct. Qed.
+
+Lemma Qsum_nil : Qsum [] == 0.
+Proof. reflexivity. Qed.
+
+Lemma Qsum_app : forall a b, Qsum (a ++ b) == Qsum a + Qsum b.
+Proof.
+  induction a as [|x a IH]; intros b.
+  - cbn [app]. change (Qsum []) with 0. ring.
+  - cbn [app]. rewrite !Qsum_cons, IH. ring.
+Qed.
+
+Lemma Qsum_map_ext : forall {X} (f g : X -> Q) l,
+  (forall x, In x l -> f x == g x) -> Qsum (map f l) == Qsum (map g l).
+Proof.
+  induction l as [|x l IH]; intros H; [reflexivity|].
+  cbn [map]. rewrite !Qsum_cons, IH, (H x) by (intuition (auto using in_eq, in_cons)). reflexivity.
+Qed.
+
+Lemma Qsum_map_add : forall {X} (f g : X -> Q) l,
+  Qsum (map (fun x => f x + g x) l) == Qsum (map f l) + Qsum (map g l).
+Proof.
+  induction l as [|x l IH]; [cbn; change (Qsum []) with 0; ring|].
+  cbn [map]. rewrite !Qsum_cons, IH. ring.
+Qed.
+
+Lemma Qsum_map_scale : forall {X} c (f : X -> Q) l,
+  Qsum (map (fun x => c * f x) l) == c * Qsum (map f l).
+Proof.
+  induction l as [|x l IH]; [cbn; change (Qsum []) with 0; ring|].
+  cbn [map]. rewrite !Qsum_cons, IH. ring.
+Qed.
+
+Lemma Qsum_map_scale_r : forall {X} c (f : X -> Q) l,
+  Qsum (map (fun x => f x * c) l) == Qsum (map f l) * c.
+Proof.
+  induction l as [|x l IH]; [cbn; change (Qsum []) with 0; ring|].
+  cbn [map]. rewrite !Qsum_cons, IH. ring.
+Qed.
+
+Lemma Qsum_map_const : forall {X} c (l : list X),
+  Qsum (map (fun _ => c) l) == Qn (length l) * c.
+Proof.
+  induction l as [|x l IH]; [cbn; change (Qsum []) with 0; unfold Qn; cbn; ring|].
+  cbn [map length]. rewrite Qsum_cons, IH. unfold Qn. rewrite Nat2Z.inj_succ, <- Z.add_1_r, inject_Z_plus. ring.
+Qed.
+
+Lemma Qsum_flat_map : forall {X} (f : X -> list Q) l,
+  Qsum (flat_map f l) == Qsum (map (fun x => Qsum (f x)) l).
+Proof.
+  induction l as [|x l IH]; [reflexivity|].
+  cbn [flat_map map]. rewrite Qsum_app, Qsum_cons, IH. reflexivity.
+Qed.
+
+(* a sum over a table is a sum over its indices *)
+Lemma map_nth_seq : forall {X} (l : list X) d, map (fun i => nth i l d) (seq 0 (length l)) = l.
+Proof.
+  induction l as [|x l IH]; intros d; [reflexivity|].
+  cbn [length seq map nth]. f_equal. rewrite <- seq_shift, map_map. apply IH.
+Qed.
+
+Lemma Qsum_index : forall {X} (g : X -> Q) (l : list X) d,
+  Qsum (map g l) == Qsum (map (fun i => g (nth i l d)) (seq 0 (length l))).
+Proof.
+  intros. rewrite <- (map_nth_seq l d) at 1. rewrite map_map. reflexivity.
+Qed.
+
+Lemma Qn_S : forall n, Qn (S n) == Qn n + 1.
+Proof. intros. unfold Qn. rewrite Nat2Z.inj_succ, <- Z.add_1_r, inject_Z_plus. reflexivity. Qed.
+
+Lemma Qn_pos : forall n, (0 < n)%nat -> 0 < Qn n.
+Proof. intros n H. unfold Qn, Qlt; cbn. lia. Qed.
+
+(* ------------------------------------------------------------------------------------------ *)
+(* dual numbers: projections of sums and means                                                  *)
+(* ------------------------------------------------------------------------------------------ *)
+Lemma dsum_fst : forall l, fst (dsum l) == Qsum (map fst l).
+Proof.
+  induction l as [|a l IH]; [reflexivity|].
+  unfold dsum in *; cbn [fold_right map]. unfold dred, dadd; cbn [fst snd].
+  rewrite Qred_correct, IH, Qsum_cons. reflexivity.
+Qed.
+
+Lemma dsum_snd : forall l, snd (dsum l) == Qsum (map snd l).
+Proof.
+  induction l as [|a l IH]; [reflexivity|].
+  unfold dsum in *; cbn [fold_right map]. unfold dred, dadd; cbn [fst snd].
+  rewrite Qred_correct, IH, Qsum_cons. reflexivity.
+Qed.
+
+Lemma dmean_fst : forall l, fst (dmean l) == / Qn (length l) * Qsum (map fst l).
+Proof. intros. unfold dmean, dscale; cbn [fst]. rewrite dsum_fst. reflexivity. Qed.
+
+Lemma dmean_snd : forall l, snd (dmean l) == / Qn (length l) * Qsum (map snd l).
+Proof. intros. unfold dmean, dscale; cbn [snd]. rewrite dsum_snd. reflexivity. Qed.
+
+Lemma map2_map_map : forall {X A B C} (g : A -> B -> C) (a : X -> A) (b : X -> B) l,
+  map2 g (map a l) (map b l) = map (fun x => g (a x) (b x)) l.
+Proof. induction l as [|x l IH]; [reflexivity|]. cbn. f_equal. exact IH. Qed.
+
+Lemma map2_map_l : forall {X A B C} (g : A -> B -> C) (a : X -> A) l (l' : list B),
+  map2 g (map a l) l' = map2 (fun x y => g (a x) y) l l'.
+Proof. induction l as [|x l IH]; intros [|y l']; cbn; try reflexivity. f_equal. apply IH. Qed.
+
+Lemma map2_same : forall {X C} (g : X -> X -> C) l, map2 g l l = map (fun x => g x x) l.
+Proof. induction l as [|x l IH]; [reflexivity|]. cbn. f_equal. exact IH. Qed.
+
+(* ------------------------------------------------------------------------------------------ *)
+(* the sample space: tuples and their weights                                                   *)
+(* ------------------------------------------------------------------------------------------ *)
+Section Space.
+  Variable qd : ptable.
+  Let n := length qd.
+  Let P := pr qd.
+
+  Definition Esp (N : nat) (G : list nat -> Q) : Q :=
+    Qsum (map (fun t => weight qd t * G t) (tuples n N)).
+
+  Lemma tuples_length : forall N t, In t (tuples n N) -> length t = N.
+  Proof.
+    induction N as [|N IH]; intros t H.
+    - cbn in H. destruct H as [<-|[]]. reflexivity.
+    - cbn [tuples] in H. apply in_flat_map in H. destruct H as [i [_ H]].
+      apply in_map_iff in H. destruct H as [t' [<- H]]. cbn. f_equal. auto.
+  Qed.
+
+  Lemma Esp_ext : forall N G G', (forall t, In t (tuples n N) -> G t == G' t) -> Esp N G == Esp N G'.
+  Proof. intros N G G' H. unfold Esp. apply Qsum_map_ext. intros t Ht. rewrite (H t Ht). reflexivity. Qed.
+
+  Lemma Esp_0 : forall G, Esp 0 G == G [].
+  Proof.
+    intros. unfold Esp. cbn [tuples map]. rewrite Qsum_cons. change (Qsum []) with 0.
+    unfold weight, Qprod; cbn [map fold_right]. ring.
+  Qed.
+
+  Lemma Esp_S : forall N G,
+    Esp (S N) G == Qsum (map (fun i => P i * Esp N (fun t => G (i :: t))) (seq 0 n)).
+  Proof.
+    intros N G. unfold Esp. cbn [tuples]. rewrite flat_map_concat_map, concat_map, map_map.
+    rewrite <- flat_map_concat_map, Qsum_flat_map. apply Qsum_map_ext. intros i _.
+    rewrite map_map. rewrite <- Qsum_map_scale. apply Qsum_map_ext. intros t _.
+    unfold weight, P, Qprod; cbn [map fold_right]. ring.
+  Qed.
+
+  Lemma Esp_add : forall N G G', Esp N (fun t => G t + G' t) == Esp N G + Esp N G'.
+  Proof.
+    intros. unfold Esp. rewrite <- Qsum_map_add. apply Qsum_map_ext. intros; ring.
+  Qed.
+
+  Lemma Esp_scale : forall N c G, Esp N (fun t => c * G t) == c * Esp N G.
+  Proof.
+    intros. unfold Esp. rewrite <- Qsum_map_scale. apply Qsum_map_ext. intros; ring.
+  Qed.
+
+  Hypothesis total_one : Qsum (map fst qd) == 1.
+
+  Lemma sumP_one : Qsum (map P (seq 0 n)) == 1.
+  Proof.
+    rewrite <- total_one. unfold P, pr, n. symmetry. apply (Qsum_index fst qd (0, 0)).
+  Qed.
+
+  Lemma Esp_const : forall N c, Esp N (fun _ => c) == c.
+  Proof.
+    induction N as [|N IH]; intros c.
+    - apply Esp_0.
+    - rewrite Esp_S. rewrite (Qsum_map_ext _ (fun i => c * P i)).
+      + rewrite Qsum_map_scale, sumP_one. ring.
+      + intros i _. rewrite IH. ring.
+  Qed.
+
+  (* E[ sum_{j in t} h(t_j) ] = N * sum_i P(i) h(i) *)
+  Lemma Esp_sum_positions : forall (h : nat -> Q) N,
+    Esp N (fun t => Qsum (map h t)) == Qn N * Qsum (map (fun i => P i * h i) (seq 0 n)).
+  Proof.
+    intros h. induction N as [|N IH].
+    - rewrite Esp_0. cbn. unfold Qn; cbn. ring.
+    - rewrite Esp_S.
+      rewrite (Qsum_map_ext _ (fun i => P i * h i + P i * (Qn N * Qsum (map (fun i => P i * h i) (seq 0 n))))).
+      + rewrite Qsum_map_add, Qsum_map_scale_r, sumP_one, Qn_S. ring.
+      + intros i _.
+        rewrite (Esp_ext N _ (fun t => h i + Qsum (map h t))) by (intros; cbn [map]; apply Qsum_cons).
+        rewrite Esp_add, Esp_const, IH. ring.
+  Qed.
+
+  (* the mean over the N positions *)
+  Lemma Esp_mean_positions : forall (h : nat -> Q) N, (0 < N)%nat ->
+    Esp N (fun t => / Qn (length t) * Qsum (map h t)) == Qsum (map (fun i => P i * h i) (seq 0 n)).
+  Proof.
+    intros h N HN.
+    rewrite (Esp_ext N _ (fun t => / Qn N * Qsum (map h t))).
+    - rewrite Esp_scale, Esp_sum_positions. field. intro E. pose proof (Qn_pos N HN) as L. rewrite E in L. discriminate.
+    - intros t Ht. rewrite (tuples_length N t Ht). reflexivity.
+  Qed.
+End Space.
+
+(* ------------------------------------------------------------------------------------------ *)
+(* DirectEstimator                                                                              *)
+(* ------------------------------------------------------------------------------------------ *)
+
+Lemma dual_combo_fst : forall a b, fst (dsub (dadd a b) (detach b)) == fst a.
+Proof. intros. unfold dsub, dadd, detach; cbn [fst snd]. ring. Qed.
+Lemma dual_combo_snd : forall a b, snd (dsub (dadd a b) (detach b)) == snd a + snd b.
+Proof. intros. unfold dsub, dadd, detach; cbn [fst snd]. ring. Qed.
+
+Section Direct.
+  Variables (pd : ptable) (f cv : list dual) (ell : list Q) (use_cv : bool) (cvm : dual).
+
+  Definition fprime (i : nat) : dual :=
+    if use_cv then dadd (dsub (fn f i) (fn cv i)) cvm else fn f i.
+
+  Lemma direct_at_fst : forall t,
+    fst (direct_at use_cv cvm pd f cv ell t) == / Qn (length t) * Qsum (map (fun i => fst (fprime i)) t).
+  Proof.
+    intros t. unfold direct_at, direct. rewrite dual_combo_fst.
+    rewrite dmean_fst, !map_map, !map_length. cbn [d_f d_cv d_logp]. reflexivity.
+  Qed.
+
+  Lemma direct_at_snd : forall t,
+    snd (direct_at use_cv cvm pd f cv ell t) ==
+    / Qn (length t) * Qsum (map (fun i => snd (fprime i) + fst (fprime i) * dlogp pd i) t).
+  Proof.
+    intros t. unfold direct_at, direct. rewrite dual_combo_snd.
+    rewrite !map_map. cbn [d_f d_cv d_logp].
+    rewrite (map2_map_map (fun f0 d => dmul (detach f0) (d_logp d))).
+    rewrite !dmean_snd, !map_map, !map_length. cbn [d_f d_cv d_logp].
+    fold fprime. rewrite <- Qmult_plus_distr_r, <- Qsum_map_add.
+    apply Qmult_comp; [reflexivity|]. apply Qsum_map_ext. intros i _.
+    unfold dmul, detach; cbn [fst snd]. unfold fprime. ring.
+  Qed.
+End Direct.
+
+Lemma Qsum_seq_S : forall (k : nat -> Q) n,
+  Qsum (map k (seq 0 (S n))) == k 0%nat + Qsum (map (fun i => k (S i)) (seq 0 n)).
+Proof. intros. cbn [seq map]. rewrite Qsum_cons, <- seq_shift, map_map. reflexivity. Qed.
+
+Lemma Qsum_zero : forall {X} (k : X -> Q) l, (forall x, In x l -> k x == 0) -> Qsum (map k l) == 0.
+Proof.
+  intros X k l H. rewrite (Qsum_map_ext k (fun _ => 0) l H), Qsum_map_const. ring.
+Qed.
+
+Lemma fn_nil : forall i, fn [] i = dzero.
+Proof. intros [|i]; reflexivity. Qed.
+
+Lemma Qsum_map2_index : forall (h : dual -> Q) (g : Q * Q -> dual -> dual) pd f,
+  (forall p, h (g p dzero) == 0) ->
+  Qsum (map h (map2 g pd f)) ==
+  Qsum (map (fun i => h (g (nth i pd (0, 0)) (fn f i))) (seq 0 (length pd))).
+Proof.
+  intros h g pd. induction pd as [|p pd IH]; intros f Hz.
+  - reflexivity.
+  - destruct f as [|a f].
+    + cbn [map2 map]. symmetry. apply Qsum_zero. intros i _. rewrite fn_nil. apply Hz.
+    + cbn [map2 map length]. rewrite Qsum_cons, Qsum_seq_S, (IH f Hz). reflexivity.
+Qed.
+
+Lemma exact_fst : forall pd f,
+  fst (exact pd f) == Qsum (map (fun i => pr pd i * fst (fn f i)) (seq 0 (length pd))).
+Proof.
+  intros. unfold exact, expect_dual. rewrite dsum_fst.
+  rewrite (Qsum_map2_index fst).
+  - apply Qsum_map_ext. intros i _. reflexivity.
+  - intros p. cbn. ring.
+Qed.
+
+Lemma exact_snd : forall pd f,
+  snd (exact pd f) ==
+  Qsum (map (fun i => dpr pd i * fst (fn f i) + pr pd i * snd (fn f i)) (seq 0 (length pd))).
+Proof.
+  intros. unfold exact, expect_dual. rewrite dsum_snd.
+  rewrite (Qsum_map2_index snd).
+  - apply Qsum_map_ext. intros i _. reflexivity.
+  - intros p. cbn. ring.
+Qed.
+
+Lemma space_average_fst : forall qd N G,
+  fst (space_average qd N G) == Esp qd N (fun t => fst (G t)).
+Proof.
+  intros. unfold space_average, Esp. rewrite dsum_fst, map_map. apply Qsum_map_ext. intros; reflexivity.
+Qed.
+
+Lemma space_average_snd : forall qd N G,
+  snd (space_average qd N G) == Esp qd N (fun t => snd (G t)).
+Proof.
+  intros. unfold space_average, Esp. rewrite dsum_snd, map_map. apply Qsum_map_ext. intros; reflexivity.
+Qed.
+
+Lemma sum_dpr_zero : forall pd, Qsum (map snd pd) == 0 ->
+  Qsum (map (dpr pd) (seq 0 (length pd))) == 0.
+Proof. intros pd H. rewrite <- H. symmetry. apply (Qsum_index snd pd (0, 0)). Qed.
+
+Lemma pr_pos : forall pd i, Forall (fun e => 0 < fst e) pd -> (i < length pd)%nat -> 0 < pr pd i.
+Proof.
+  intros pd i H Hi. unfold pr. rewrite Forall_forall in H. apply H. apply nth_In. exact Hi.
+Qed.
+
+Lemma pr_nz : forall pd i, Forall (fun e => 0 < fst e) pd -> In i (seq 0 (length pd)) -> ~ pr pd i == 0.
+Proof.
+  intros pd i H Hi E. apply in_seq in Hi. pose proof (pr_pos pd i H ltac:(lia)) as L. rewrite E in L. discriminate.
+Qed.
+
+Theorem direct_unbiased : forall pd f cv ell use_cv cvm N,
+  (0 < N)%nat -> is_dist pd ->
+  (use_cv = true -> deq cvm (exact pd cv)) ->
+  unbiased pd pd f N (direct_at use_cv cvm pd f cv ell).
+Proof.
+  intros pd f cv ell use_cv cvm N HN [H1 [H0 Hpos]] Hcv. unfold unbiased. split.
+  - rewrite space_average_fst.
+    rewrite (Esp_ext pd N _ (fun t => / Qn (length t) * Qsum (map (fun i => fst (fprime f cv use_cv cvm i)) t)))
+      by (intros; apply direct_at_fst).
+    rewrite (Esp_mean_positions pd H1 _ N HN), exact_fst.
+    destruct use_cv; unfold fprime; [|reflexivity].
+    destruct (Hcv eq_refl) as [Hc1 _]. rewrite exact_fst in Hc1.
+    rewrite (Qsum_map_ext _ (fun i => pr pd i * fst (fn f i) + (-(1)) * (pr pd i * fst (fn cv i)) + pr pd i * fst cvm)).
+    + rewrite !Qsum_map_add, Qsum_map_scale, Qsum_map_scale_r, <- Hc1, (sumP_one pd H1). ring.
+    + intros i _. unfold dadd, dsub; cbn [fst snd]. ring.
+  - rewrite space_average_snd.
+    rewrite (Esp_ext pd N _ (fun t => / Qn (length t) *
+               Qsum (map (fun i => snd (fprime f cv use_cv cvm i) + fst (fprime f cv use_cv cvm i) * dlogp pd i) t)))
+      by (intros; apply direct_at_snd).
+    rewrite (Esp_mean_positions pd H1 _ N HN), exact_snd.
+    destruct use_cv; unfold fprime.
+    + destruct (Hcv eq_refl) as [Hc1 Hc2]. rewrite exact_fst in Hc1. rewrite exact_snd in Hc2.
+      rewrite (Qsum_map_ext _ (fun i => (dpr pd i * fst (fn f i) + pr pd i * snd (fn f i))
+                 + (-(1)) * (dpr pd i * fst (fn cv i) + pr pd i * snd (fn cv i))
+                 + pr pd i * snd cvm + dpr pd i * fst cvm)).
+      * rewrite !Qsum_map_add, Qsum_map_scale, !Qsum_map_scale_r, <- Hc2, (sumP_one pd H1), (sum_dpr_zero pd H0). ring.
+      * intros i Hi. unfold dadd, dsub, dlogp; cbn [fst snd]. field. exact (pr_nz pd i Hpos Hi).
+    + apply Qsum_map_ext. intros i Hi. unfold dlogp. field. exact (pr_nz pd i Hpos Hi).
+Qed.
+
+(* ------------------------------------------------------------------------------------------ *)
+(* ImportanceSamplingEstimator, EnumerateEstimator, relaxed estimators (value)                  *)
+(* ------------------------------------------------------------------------------------------ *)
+
+Ltac inseq Hlen Hi := first [exact Hi | rewrite Hlen; exact Hi | rewrite <- Hlen; exact Hi].
+
+Section Importance.
+  Variables (pd qd : ptable) (f : list dual).
+
+  Lemma importance_at_unfold : forall t,
+    importance_at false pd qd f t =
+    dsum (map (fun i => dmul (fn f i)
+                 (lexp (lsub (lsub (lprob pd i)
+                                   (fst (ldetach (lprob qd i)),
+                                    snd (ldetach (lprob qd i)) + 0 * Qsum (map snd (map (lprob qd) t))))
+                             (Qn (length t), 0)))) t).
+  Proof.
+    intros t. unfold importance_at, importance.
+    rewrite !map_length, !map_map.
+    rewrite (map2_map_map lsub), map_map.
+    rewrite (map2_map_map (fun f0 l => dmul f0 (lexp l))). reflexivity.
+  Qed.
+
+  Lemma importance_at_fst : forall t,
+    fst (importance_at false pd qd f t) ==
+    / Qn (length t) * Qsum (map (fun i => fst (fn f i) * (pr pd i / pr qd i)) t).
+  Proof.
+    intros t. rewrite importance_at_unfold, dsum_fst, map_map, <- (Qsum_map_scale (/ Qn (length t))).
+    apply Qsum_map_ext. intros i _. unfold dmul, lexp, lsub, ldetach, lprob; cbn [fst snd].
+    unfold Qdiv. ring.
+  Qed.
+
+  Lemma importance_at_snd : forall t,
+    snd (importance_at false pd qd f t) ==
+    / Qn (length t) * Qsum (map (fun i => fst (fn f i) * (pr pd i / pr qd i) * dlogp pd i
+                                          + snd (fn f i) * (pr pd i / pr qd i)) t).
+  Proof.
+    intros t. rewrite importance_at_unfold, dsum_snd, map_map, <- (Qsum_map_scale (/ Qn (length t))).
+    apply Qsum_map_ext. intros i _. unfold dmul, lexp, lsub, ldetach, lprob; cbn [fst snd].
+    unfold Qdiv. ring.
+  Qed.
+
+  Theorem importance_unbiased : forall N,
+    (0 < N)%nat -> length pd = length qd ->
+    Qsum (map fst qd) == 1 -> Forall (fun e => 0 < fst e) qd -> is_density pd ->
+    unbiased pd qd f N (importance_at false pd qd f).
+  Proof.
+    intros N HN Hlen H1 Hq Hp. unfold unbiased. split.
+    - rewrite space_average_fst.
+      rewrite (Esp_ext qd N _ _ (fun t _ => importance_at_fst t)).
+      rewrite (Esp_mean_positions qd H1 _ N HN), exact_fst, Hlen.
+      apply Qsum_map_ext. intros i Hi. field. apply (pr_nz qd i Hq). inseq Hlen Hi.
+    - rewrite space_average_snd.
+      rewrite (Esp_ext qd N _ _ (fun t _ => importance_at_snd t)).
+      rewrite (Esp_mean_positions qd H1 _ N HN), exact_snd, Hlen.
+      apply Qsum_map_ext. intros i Hi. unfold dlogp.
+      assert (Hi1 : In i (seq 0 (length pd))) by (inseq Hlen Hi).
+      assert (Hi2 : In i (seq 0 (length qd))) by (inseq Hlen Hi).
+      pose proof (pr_nz pd i Hp Hi1). pose proof (pr_nz qd i Hq Hi2). field. tauto.
+  Qed.
+End Importance.
+
+Theorem enumerate_exact : forall pd f,
+  length f = length pd -> is_density pd -> deq (enumerate_est pd f) (exact pd f).
+Proof.
+  intros pd f Hlen Hp. unfold enumerate_est.
+  rewrite <- (map_nth_seq f dzero) at 1. rewrite Hlen, map2_map_l, map2_same.
+  split.
+  - rewrite dsum_fst, map_map, exact_fst. apply Qsum_map_ext. intros i _.
+    unfold dmul, lexp, lprob, fn; cbn [fst snd]. ring.
+  - rewrite dsum_snd, map_map, exact_snd. apply Qsum_map_ext. intros i Hi.
+    unfold dmul, lexp, lprob, fn, dlogp; cbn [fst snd]. field. exact (pr_nz pd i Hp Hi).
+Qed.
+
+Lemma straight_through_value : forall fs,
+  fst (straight_through fs) == / Qn (length fs) * Qsum (map fst fs).
+Proof. intros. apply dmean_fst. Qed.
+
+Lemma map2_length_same : forall {X A C} (g : A -> X -> C) (a : X -> A) (l : list X),
+  length (map2 g (map a l) l) = length l.
+Proof. induction l as [|x l IH]; [reflexivity|]. cbn. f_equal. exact IH. Qed.
+
+Theorem relax_value : forall ds, ds <> [] ->
+  fst (relax ds) ==
+  / Qn (length ds) * Qsum (map (fun d => fst (r_f d) - fst (r_cvzc d) + fst (r_cvz d)) ds).
+Proof.
+  intros ds Hne. unfold relax.
+  rewrite dmean_fst, map_map.
+  rewrite (Qsum_map_ext _ (fun _ => fst (dmean (map2 (fun a d => dadd a (r_cvz d))
+                                            (map (fun d => dsub (r_f d) (r_cvzc d)) ds) ds))))
+    by (intros; apply dual_combo_fst).
+  rewrite Qsum_map_const, map_length, map2_length_same.
+  rewrite dmean_fst, map2_length_same.
+  rewrite (map2_map_l (fun a d => dadd a (r_cvz d))), map2_same, map_map.
+  assert (Hn : ~ Qn (length ds) == 0).
+  { destruct ds as [|d ds']; [congruence|]. intro E.
+    pose proof (Qn_pos (length (d :: ds')) ltac:(cbn; lia)) as L. rewrite E in L. discriminate. }
+  rewrite (Qsum_map_ext (fun x => fst (dadd (dsub (r_f x) (r_cvzc x)) (r_cvz x)))
+                        (fun d => fst (r_f d) - fst (r_cvzc d) + fst (r_cvz d)))
+    by (intros; unfold dadd, dsub; cbn [fst snd]; reflexivity).
+  field. exact Hn.
+Qed.
+
+(* ------------------------------------------------------------------------------------------ *)
+(* straight-through value, Metropolis-Hastings, joint tables                                    *)
+(* ------------------------------------------------------------------------------------------ *)
+
+(* value of the straight-through estimator: unbiased whenever the thresholded sample follows pd *)
+Theorem straight_through_value_unbiased : forall pd f N,
+  (0 < N)%nat -> Qsum (map fst pd) == 1 ->
+  fst (space_average pd N (fun t => straight_through (map (fn f) t))) == fst (exact pd f).
+Proof.
+  intros pd f N HN H1. rewrite space_average_fst.
+  rewrite (Esp_ext pd N _ (fun t => / Qn (length t) * Qsum (map (fun i => fst (fn f i)) t))).
+  - rewrite (Esp_mean_positions pd H1 _ N HN), exact_fst. reflexivity.
+  - intros t _. rewrite straight_through_value, map_length, map_map. reflexivity.
+Qed.
+
+(* ---------------- Metropolis-Hastings ---------------- *)
+Lemma imh_accepts_all : forall w c props us last wl,
+  0 < c -> (forall i, w i == c) -> wl == c ->
+  Forall (fun u => 0 <= u /\ u < 1) us -> (length props <= length us)%nat ->
+  imh_chain w last (Some wl) props us = props.
+Proof.
+  intros w c props. induction props as [|p props IH]; intros us last wl Hc Hw Hwl Hus Hlen.
+  - destruct us; reflexivity.
+  - destruct us as [|u us]; [cbn in Hlen; lia|].
+    inversion Hus as [|? ? [Hu0 Hu1] Hus']; subst.
+    cbn [imh_chain].
+    destruct (Qle_bool (w p) (u * wl)) eqn:E.
+    + exfalso. apply Qle_bool_iff in E. rewrite Hw, Hwl in E.
+      assert (u * c < 1 * c) by (apply Qmult_lt_compat_r; assumption).
+      rewrite Qmult_1_l in H. apply (Qlt_irrefl c). eapply Qle_lt_trans; eassumption.
+    + cbn [negb]. f_equal. apply (IH us p (w p)); auto. cbn in Hlen; lia.
+Qed.
+
+Theorem mh_accepts_all_when_equal : forall w c f init props us burn,
+  0 < c -> (forall i, w i == c) ->
+  Forall (fun u => 0 <= u /\ u < 1) us -> (length props <= length us)%nat ->
+  imh_chain w init (Some (w init)) props us = props /\
+  imh_element w f init props us burn = Qsum (map f (skipn burn props)) / Qn (length props - burn).
+Proof.
+  intros w c f init props us burn Hc Hw Hus Hlen.
+  assert (E : imh_chain w init (Some (w init)) props us = props) by (apply (imh_accepts_all w c); auto).
+  split; [exact E|]. unfold imh_element, imh_value. rewrite E. reflexivity.
+Qed.
+
+(* drawing the starting point: the first draw is taken as soon as it lies in the target's support *)
+Lemma find_initial_first : forall insupp d0 rest tries,
+  all_in insupp d0 = true -> find_initial insupp (d0 :: rest) tries = Some (d0, 1%nat).
+Proof. intros. unfold find_initial. rewrite H. reflexivity. Qed.
+
+(* ---------------- independent variables: the joint table is a distribution ---------------- *)
+Lemma Qsum_flat_map_prod : forall (v r : ptable) (g : Q * Q -> Q * Q -> Q),
+  Qsum (map fst (flat_map (fun a => map (fun b => (fst a * fst b, fst a * snd b + snd a * fst b)) r) v))
+  == Qsum (map fst v) * Qsum (map fst r).
+Proof.
+  intros v r _. induction v as [|a v IH].
+  - cbn. change (Qsum []) with 0. ring.
+  - cbn [flat_map map]. rewrite map_app, Qsum_app, IH, map_map. cbn [fst]. rewrite Qsum_cons.
+    rewrite (Qsum_map_scale (fst a) fst r). ring.
+Qed.
+
+Lemma Qsum_flat_map_dprod : forall (v r : ptable),
+  Qsum (map snd (flat_map (fun a => map (fun b => (fst a * fst b, fst a * snd b + snd a * fst b)) r) v))
+  == Qsum (map fst v) * Qsum (map snd r) + Qsum (map snd v) * Qsum (map fst r).
+Proof.
+  intros v r. induction v as [|a v IH].
+  - cbn. change (Qsum []) with 0. ring.
+  - cbn [flat_map map]. rewrite map_app, Qsum_app, IH, map_map. cbn [snd]. rewrite !Qsum_cons.
+    rewrite (Qsum_map_add (fun b => fst a * snd b) (fun b => snd a * fst b) r).
+    rewrite (Qsum_map_scale (fst a) snd r), (Qsum_map_scale (snd a) fst r). ring.
+Qed.
+
+Theorem joint_is_dist : forall vs, Forall is_dist vs -> is_dist (joint vs).
+Proof.
+  induction vs as [|v vs IH]; intros H.
+  - unfold is_dist; cbn. repeat split; try reflexivity. constructor; [reflexivity|constructor].
+  - inversion H as [|? ? [Hv1 [Hv0 Hvp]] Hvs]; subst. destruct (IH Hvs) as [Hr1 [Hr0 Hrp]].
+    cbn [joint]. repeat split.
+    + rewrite (Qsum_flat_map_prod v (joint vs) (fun _ _ => 0)), Hv1, Hr1. ring.
+    + rewrite Qsum_flat_map_dprod, Hv1, Hr1, Hv0, Hr0. ring.
+    + apply Forall_forall. intros e He. apply in_flat_map in He. destruct He as [a [Ha He]].
+      apply in_map_iff in He. destruct He as [b [<- Hb]]. cbn [fst].
+      rewrite Forall_forall in Hvp, Hrp. apply Qmult_lt_0_compat; auto.
+Qed.
+
+(* ------------------------------------------------------------------------------------------ *)
+(* RELAX: the control-variate terms cancel in the mean when the relaxed law factorises          *)
+(* ------------------------------------------------------------------------------------------ *)
+
+Lemma Qsum_swap : forall {X Y} (F : X -> Y -> Q) lx ly,
+  Qsum (map (fun x => Qsum (map (fun y => F x y) ly)) lx) ==
+  Qsum (map (fun y => Qsum (map (fun x => F x y) lx)) ly).
+Proof.
+  intros X Y F lx ly. induction lx as [|x lx IH].
+  - cbn [map]. change (Qsum []) with 0. symmetry. apply Qsum_zero. intros; reflexivity.
+  - cbn [map]. rewrite Qsum_cons, IH, <- Qsum_map_add. apply Qsum_map_ext. intros y _.
+    rewrite Qsum_cons. reflexivity.
+Qed.
+
+Lemma Qsum_indicator : forall (k n : nat) (a : Q), (k < n)%nat ->
+  Qsum (map (fun b => if Nat.eqb k b then a else 0) (seq 0 n)) == a.
+Proof.
+  intros k n a Hk. replace n with (k + S (n - k - 1))%nat by lia.
+  rewrite seq_app, map_app, Qsum_app. cbn [seq map]. rewrite Qsum_cons, Nat.eqb_refl.
+  rewrite !Qsum_zero; [ring| |].
+  - intros b Hb. apply in_seq in Hb. destruct (Nat.eqb_spec k b); [lia|reflexivity].
+  - intros b Hb. apply in_seq in Hb. destruct (Nat.eqb_spec k b); [lia|reflexivity].
+Qed.
+
+(* A finite relaxed law: relaxed points z < m with weights r z, threshold Hth z < n, conditional weights
+   kap b zc.  Discrete form of "the relaxed density factors as threshold probability times conditional
+   density":   P(b) * kap b zc  ==  r zc * [Hth zc = b],   P(b) = sum of r over { z | Hth z = b }. *)
+Section RelaxMean.
+  Variables (m n : nat) (r : nat -> Q) (Hth : nat -> nat) (kap : nat -> nat -> Q).
+  Variables (f : nat -> Q) (c : nat -> Q).
+
+  Definition Pth (b : nat) : Q := Qsum (map (fun z => if Nat.eqb (Hth z) b then r z else 0) (seq 0 m)).
+
+  Hypothesis Hth_range : forall z, (z < m)%nat -> (Hth z < n)%nat.
+  Hypothesis factorises : forall b zc, (b < n)%nat -> (zc < m)%nat ->
+    Pth b * kap b zc == if Nat.eqb (Hth zc) b then r zc else 0.
+
+  (* a sum over relaxed points grouped by their thresholded value *)
+  Lemma group_by_threshold : forall g : nat -> Q,
+    Qsum (map (fun z => r z * g (Hth z)) (seq 0 m)) == Qsum (map (fun b => Pth b * g b) (seq 0 n)).
+  Proof.
+    intros g. unfold Pth.
+    rewrite (Qsum_map_ext (fun b => Qsum (map (fun z => if Nat.eqb (Hth z) b then r z else 0) (seq 0 m)) * g b)
+                          (fun b => Qsum (map (fun z => (if Nat.eqb (Hth z) b then r z else 0) * g b) (seq 0 m)))).
+    2:{ intros b _. rewrite Qsum_map_scale_r. reflexivity. }
+    rewrite (Qsum_swap (fun b z => (if Nat.eqb (Hth z) b then r z else 0) * g b)).
+    apply Qsum_map_ext. intros z Hz. apply in_seq in Hz.
+    rewrite (Qsum_map_ext _ (fun b => if Nat.eqb (Hth z) b then r z * g (Hth z) else 0)).
+    - rewrite Qsum_indicator; [reflexivity|]. apply Hth_range. lia.
+    - intros b _. destruct (Nat.eqb_spec (Hth z) b); [subst; ring|ring].
+  Qed.
+
+  (* expectation of the one-sample RELAX value  f(H z) - c(zc) + c(z),  z ~ r,  zc ~ kap (H z) *)
+  Theorem relax_mean_exact :
+    Qsum (map (fun z => Qsum (map (fun zc => r z * kap (Hth z) zc * (f (Hth z) - c zc + c z)) (seq 0 m))) (seq 0 m))
+    == Qsum (map (fun b => Pth b * f b) (seq 0 n)).
+  Proof.
+    set (K := fun b => Qsum (map (kap b) (seq 0 m))).
+    set (Cc := fun b => Qsum (map (fun zc => kap b zc * c zc) (seq 0 m))).
+    rewrite (Qsum_map_ext _ (fun z => r z * (f (Hth z) * K (Hth z) - Cc (Hth z)) + r z * c z * K (Hth z))).
+    2:{ intros z _. unfold K, Cc.
+        rewrite (Qsum_map_ext _ (fun zc => (r z * f (Hth z)) * kap (Hth z) zc
+                                            + (-(1) * r z) * (kap (Hth z) zc * c zc) + (r z * c z) * kap (Hth z) zc))
+          by (intros; ring).
+        rewrite !Qsum_map_add, !Qsum_map_scale. ring. }
+    rewrite Qsum_map_add.
+    rewrite (group_by_threshold (fun b => f b * K b - Cc b)).
+    (* P b * K b == P b  and  sum_b P b * Cc b == sum_z r z c z *)
+    assert (PK : forall b, In b (seq 0 n) -> Pth b * K b == Pth b).
+    { intros b Hb. apply in_seq in Hb. unfold K. rewrite <- Qsum_map_scale.
+      rewrite (Qsum_map_ext _ (fun zc => if Nat.eqb (Hth zc) b then r zc else 0)).
+      - reflexivity.
+      - intros zc Hz. apply in_seq in Hz. apply factorises; lia. }
+    assert (PC : Qsum (map (fun b => Pth b * Cc b) (seq 0 n)) == Qsum (map (fun z => r z * c z) (seq 0 m))).
+    { unfold Cc.
+      rewrite (Qsum_map_ext _ (fun b => Qsum (map (fun zc => (if Nat.eqb (Hth zc) b then r zc else 0) * c zc) (seq 0 m)))).
+      2:{ intros b Hb. apply in_seq in Hb. rewrite <- Qsum_map_scale. apply Qsum_map_ext. intros zc Hz.
+          apply in_seq in Hz. rewrite <- (factorises b zc) by lia. ring. }
+      rewrite (Qsum_swap (fun b zc => (if Nat.eqb (Hth zc) b then r zc else 0) * c zc)).
+      apply Qsum_map_ext. intros zc Hz. apply in_seq in Hz.
+      rewrite (Qsum_map_ext _ (fun b => if Nat.eqb (Hth zc) b then r zc * c zc else 0)).
+      - apply Qsum_indicator. apply Hth_range. lia.
+      - intros b _. destruct (Nat.eqb (Hth zc) b); ring. }
+    assert (RK : Qsum (map (fun z => r z * c z * K (Hth z)) (seq 0 m)) == Qsum (map (fun z => r z * c z) (seq 0 m))).
+    { (* group by the threshold value of z, carrying c z along: use the factorisation pointwise *)
+      rewrite (Qsum_map_ext _ (fun z => Qsum (map (fun b => if Nat.eqb (Hth z) b then r z * c z * K b else 0) (seq 0 n)))).
+      2:{ intros z Hz. apply in_seq in Hz. symmetry.
+          rewrite (Qsum_map_ext _ (fun b => if Nat.eqb (Hth z) b then r z * c z * K (Hth z) else 0)).
+          - apply Qsum_indicator. apply Hth_range; lia.
+          - intros b _. destruct (Nat.eqb_spec (Hth z) b); [subst; reflexivity|reflexivity]. }
+      rewrite (Qsum_swap (fun z b => if Nat.eqb (Hth z) b then r z * c z * K b else 0)).
+      rewrite (Qsum_map_ext _ (fun b => Qsum (map (fun z => (if Nat.eqb (Hth z) b then r z else 0) * c z) (seq 0 m)))).
+      2:{ intros b Hb. apply in_seq in Hb.
+          (* sum_z [H z = b] r z c z K b : replace [H z = b] r z by P b * kap b z, then P b K b = P b *)
+          rewrite (Qsum_map_ext _ (fun z => (Pth b * K b) * (kap b z * c z))).
+          - rewrite (Qsum_map_scale (Pth b * K b)), (PK b) by (apply in_seq; lia).
+            rewrite <- Qsum_map_scale. apply Qsum_map_ext. intros z Hz. apply in_seq in Hz.
+            rewrite <- (factorises b z) by lia. ring.
+          - intros z Hz. apply in_seq in Hz. rewrite <- (Qmult_assoc (Pth b)), (Qmult_comm (K b)), !Qmult_assoc.
+            rewrite (factorises b z) by lia. destruct (Nat.eqb (Hth z) b); ring. }
+      rewrite (Qsum_swap (fun b z => (if Nat.eqb (Hth z) b then r z else 0) * c z)).
+      apply Qsum_map_ext. intros z Hz. apply in_seq in Hz.
+      rewrite (Qsum_map_ext _ (fun b => if Nat.eqb (Hth z) b then r z * c z else 0)).
+      - apply Qsum_indicator. apply Hth_range. lia.
+      - intros b _. destruct (Nat.eqb (Hth z) b); ring. }
+    rewrite RK.
+    rewrite (Qsum_map_ext (fun b => Pth b * (f b * K b - Cc b)) (fun b => Pth b * f b + (-(1)) * (Pth b * Cc b))).
+    2:{ intros b Hb. rewrite <- (PK b Hb) at 2. ring. }
+    rewrite Qsum_map_add, Qsum_map_scale, PC. ring.
+  Qed.
+End RelaxMean.
